@@ -124,7 +124,7 @@ let seal_root_raw (root : n list nnode) : n list nnode =
   (* /Limits of a generator-made tree: first and last STORED key beneath every non-root node (no comparison involved) *)
   seal_root root
 
-let run_model_raw t init ops every : string =
+let run_model_raw ?(spell = false) t init ops every : string =
   let io = kio_name in
   let root = seal_root_raw (parse_tree io init) in
   let raw_op (op : n list nnop) : n list nnop = match op with
@@ -146,7 +146,7 @@ let run_model_raw t init ops every : string =
     let w = int_of_z w in
     if w > 0 then Buffer.add_string b ("w" ^ string_of_int w);
     Buffer.add_char b '@';
-    if every <= 1 || (i + 1) mod every = 0 || i + 1 = nops then show_tree io b (nk_view_node tree)
+    if every <= 1 || (i + 1) mod every = 0 || i + 1 = nops then show_tree io b (if spell then tree else nk_view_node tree)
     else Buffer.add_char b '#') out;
   Buffer.contents b
 
@@ -168,6 +168,7 @@ let () =
     | kind :: t :: init :: ops :: rest ->
       let every = match rest with [e] -> int_of_string e | _ -> 1 in
       if kind = "nameraw" then run_model_raw (int_of_string t) init ops every else
+      if kind = "namespell" then run_model_raw ~spell:true (int_of_string t) init ops every else
       if kind = "name" then run_model kio_name nn_scmp (int_of_string t) init ops every
       else run_model kio_num nn_zcmp (int_of_string t) init ops every
     | _ -> "?args");
